@@ -155,6 +155,8 @@ class Scripted(Device):
         self.avail = dict(avail) if not isinstance(avail, dict) else avail
         self.echo_put = echo_put
         self.store = {}
+        self.restrict_rng = None
+        self.restrict_p = 0.0
 
     def answer(self, line):
         if line in self.table:
@@ -176,6 +178,8 @@ class Scripted(Device):
                     return [f"@{s}:AVAIL={self.avail[s]}"]
                 return ["@RESTRICTED"]
             return ["@UNDEFINED"]
+        if self.restrict_rng is not None and self.restrict_rng.random() < self.restrict_p:
+            return ["@RESTRICTED"]            # e.g. a zone that is in standby rejects the PUT
         if self.echo_put:
             self.store[(s, f)] = v
             return [f"@{s}:{f}={v}"]
